@@ -1296,6 +1296,13 @@ func (vc *VC) bitop(op token.Token, a, b *Term, bits uint, signed bool) *Term {
 		}
 		vc.fact(B.Implies(B.Eq(ub, B.Int(0)), B.Eq(r, B.Int(0))))
 		vc.fact(B.Implies(B.Eq(ua, B.Int(0)), B.Eq(r, B.Int(0))))
+		if bits <= 16 {
+			// narrow operands: the result bit by bit
+			for i := uint(0); i < bits; i++ {
+				bit := func(t *Term) *Term { return B.Eq(B.Mod(B.Div(t, B.Big(pow2(i))), B.Int(2)), B.Int(1)) }
+				vc.fact(B.Eq(bit(r), B.And(bit(ua), bit(ub))))
+			}
+		}
 		vc.fact(B.Implies(B.Eq(ub, B.Sub(full, B.Int(1))), B.Eq(r, ua)))
 		vc.fact(B.Implies(B.Eq(ua, B.Sub(full, B.Int(1))), B.Eq(r, ub)))
 	case token.OR:
@@ -1519,6 +1526,13 @@ func (f *Frame) execConvert(st *State, x *ssa.Convert) Value {
 			vc.fact(B.Implies(B.App("f_isinf", t), B.App("f_isinf", r)))
 		}
 		return VT{r}
+	case fIsInt && isString(to):
+		// string(rune): 1 to 4 bytes of UTF-8 in a fresh string
+		n := B.Fresh(f.prefix+x.Name()+".len", SInt)
+		p := B.Fresh(f.prefix+x.Name()+".ptr", SInt)
+		vc.fact(B.And(B.Le(B.Int(1), n), B.Le(n, B.Int(4)), B.Lt(B.Int(0), p), B.Le(B.Add(p, n), B.Big(maxAddr))))
+		vc.freshRegion(st, p, n)
+		return VString{p, n}
 	case isString(from) && isByteSlice(to), isByteSlice(from) && isString(to):
 		// fresh copy
 		var n *Term
